@@ -313,7 +313,7 @@ func execReplay(t *testing.T, p *Plan) *Result {
 			}
 			if st.QIRT != "" {
 				v := pick(st.QIRT)
-				spec.QualAttrs = []NSDecl{{On: "Response", Prefix: "InResponseTo", Value: v}, {On: "SubjectConfirmationData", Prefix: "InResponseTo", Value: v}}
+				spec.QualAttrs = withNS([]NSDecl{{On: "Response", Prefix: "InResponseTo", Value: v}, {On: "SubjectConfirmationData", Prefix: "InResponseTo", Value: v}}, []string{"", "xml", "xsi"}[len(resps)%3])
 				res.probe("foreign-namespace-attribute-named-in-response-to:" + st.QIRT)
 			}
 			spec.Assertions = []AsrtSpec{a}
